@@ -338,6 +338,14 @@ impl Task {
             self.set_start_time(utils::time::time_millis());
         }
         *self.state.write().unwrap() = state.clone();
+        #[cfg(feature = "verif")]
+        crate::verif::state_write(
+            &self.pid,
+            &self.id,
+            "set_state_done",
+            &state.to_string(),
+            &state.to_string(),
+        );
 
         // clean the err
         if state != TaskState::Error {
